@@ -254,8 +254,31 @@ def coq_case_expr(case, r):
     return f"oboxl (match {rest} with Some b => Some (margin_aabb b {cm.fhex(case['margin'])}) | None => None end)"
 
 
+def tetra_box_diffs(r):
+    """RigidBody.aabbs (the leaves of the tree): each must be exactly the min / max over the four
+    stored vertices of its tetrahedron (no rounding is involved)"""
+    diffs = []
+    if "tetra_aabbs" not in r:
+        return diffs
+    V = r["vertices"]
+    if len(r["tetra_aabbs"]) != len(r["tetrahedra"]):
+        return [f"RigidBody.aabbs has {len(r['tetra_aabbs'])} boxes for {len(r['tetrahedra'])} tetrahedra"]
+    for t, (lo, hi) in zip(r["tetrahedra"], r["tetra_aabbs"]):
+        pts = [V[i] for i in t]
+        want_lo = [min(p[k] for p in pts) for k in range(3)]
+        want_hi = [max(p[k] for p in pts) for k in range(3)]
+        if lo != want_lo or hi != want_hi:
+            diffs.append(f"RigidBody.aabbs: tetrahedron {t}: box ({lo}, {hi}) but the vertices span ({want_lo}, {want_hi})")
+            break
+    return diffs
+
+
 def compare_case(case, r, m):
     sh = case["shape"]
+    if sh["kind"] == "rigid_body":
+        pre = tetra_box_diffs(r)
+        if pre:
+            return pre
     L = rigid_body_L(sh, r) if sh["kind"] == "rigid_body" else sc.shape_L(sh, case["margin"] or 0.0)
     tol = 1e-9 * L
     impl = list(r["aabb"][0]) + list(r["aabb"][1])
